@@ -195,6 +195,14 @@ def common (inputs : List RArch) : List Text :=
   | first :: _ =>
     first.packages.filter fun n => inputs.all fun a => a.packages.contains n && mget a.versions n = mget first.versions n
 
+/-- a lock must be produced (no "unable to lock" error) at least when every requested name is either locked
+under its own name, or provided on every architecture by a package that is ("virtual packages requested by
+provided name") -/
+def mustLock (originals : List Text) (inputs : List RArch) : Bool :=
+  (origNames originals).all fun n =>
+    (common inputs).contains n ||
+    (common inputs).any fun p => inputs.all fun a => (sget a.provided p).contains n
+
 /-- the shared ("index") list the property demands -/
 def specIndex (originals : List Text) (inputs : List RArch) : List Text :=
   match inputs with
